@@ -2029,7 +2029,7 @@ def remap(pulse: PulseSequence, order: Sequence[int], d_per_qubit: int = 2,
     util.tensor_transpose: Transpose the order of a tensor product.
     """
     # Number of qubits
-    N = int(np.log(pulse.d)/np.log(d_per_qubit))
+    N = int(round(np.log(pulse.d)/np.log(d_per_qubit)))
 
     # Transpose control and noise operators
     c_opers = util.tensor_transpose(pulse.c_opers, order, [[d_per_qubit]*N]*2)
